@@ -8,6 +8,7 @@ Only property theorems live here; helper lemmas are in `GluonModel.Proofs.Infix`
 -/
 import GluonModel.Infix
 import GluonModel.Proofs.Infix
+import GluonModel.InfixTable
 
 namespace GluonModel.Props.C08
 open GluonModel.Infix
@@ -70,5 +71,77 @@ example : reparse 0 [(opL "a" 4, 1), (opL "*" 7, 2), (opR "b" 4, 3)] = .error (.
   rfl
 example : AllDefined [(opL "a" 4, 1), (opL "*" 7, 2), (opR "b" 4, 3)] := by
   intro p hp; simp at hp; rcases hp with h | h | h <;> subst h <;> simp [opL, opR]
+
+
+/-! ### The built-in operator table (regenerated from parser/src/infix.rs on every run)
+
+The documented precedence ladder: `* /` bind tighter than `+ -`, these tighter than the
+comparisons, these tighter than `&&`, which binds tighter than `||`; arithmetic and comparisons
+associate to the left, `&&` and `||` to the right. A change of the Rust table changes
+`Generated/OpTable.lean` and these obligations are re-checked against it. -/
+namespace Builtin
+open GluonModel.Generated.OpTable
+
+def precOf (op : String) : Option Int := (lookupOps builtinOps op).map (·.prec)
+def fixOf (op : String) : Option Fixity := (lookupOps builtinOps op).map (·.fix)
+
+theorem source_shape_unchanged : guardIsHashOrBoolOps = true ∧ stripsTypePrefix = true := by
+  constructor <;> rfl
+
+theorem builtin_precedence_ladder :
+    precOf "*" = precOf "/" ∧ precOf "+" = precOf "-" ∧
+    (∀ a ∈ ["*", "/"], ∀ b ∈ ["+", "-"], ∃ x y, precOf a = some x ∧ precOf b = some y ∧ y < x) ∧
+    (∀ a ∈ ["+", "-"], ∀ b ∈ ["==", "/=", "<", ">", "<=", ">="],
+        ∃ x y, precOf a = some x ∧ precOf b = some y ∧ y < x) ∧
+    (∀ b ∈ ["==", "/=", "<", ">", "<=", ">="], ∃ x y, precOf b = some x ∧ precOf "&&" = some y ∧ y < x) ∧
+    (∃ x y, precOf "&&" = some x ∧ precOf "||" = some y ∧ y < x) := by
+  simp [precOf, lookupOps, builtinOps]
+
+theorem builtin_associativity :
+    (∀ a ∈ ["*", "/", "+", "-", "==", "/=", "<", ">", "<=", ">="], fixOf a = some .left) ∧
+    fixOf "&&" = some .right ∧ fixOf "||" = some .right := by
+  simp [fixOf, lookupOps, builtinOps]
+
+/-- `#Int+`, `#Float*`, `#Byte<` …: for EVERY alphanumeric type prefix, stripping leaves exactly
+    the bare operator (an operator starts with a character that is neither `#` nor alphanumeric). -/
+theorem builtin_prefix_stripped (ty op : List Char) (hty : ∀ c ∈ ty, c.isAlphanum = true)
+    (hty' : ∀ c ∈ ty, c ≠ '#')
+    (hop : ∀ c, op.head? = some c → c.isAlphanum = false ∧ c ≠ '#') :
+    stripPrefixL ('#' :: (ty ++ op)) = op := by
+  have h1 : (('#' :: (ty ++ op)).dropWhile (· == '#')) = ty ++ op := by
+    cases ty with
+    | nil =>
+      cases op with
+      | nil => simp
+      | cons c cs =>
+        have := (hop c rfl).2
+        simp [List.dropWhile, this]
+    | cons t ts =>
+      have := hty' t (by simp)
+      simp [List.dropWhile, this]
+  have h2 : ∀ (ty : List Char), (∀ c ∈ ty, c.isAlphanum = true) →
+      (ty ++ op).dropWhile Char.isAlphanum = op := by
+    intro ty
+    induction ty with
+    | nil =>
+      intro _
+      cases op with
+      | nil => simp
+      | cons c cs =>
+        have := (hop c rfl).1
+        simp [List.dropWhile, this]
+    | cons t ts ih =>
+      intro h
+      have ht := h t (by simp)
+      simp only [List.cons_append, List.dropWhile, ht]
+      exact ih (fun c hc => h c (by simp [hc]))
+  unfold stripPrefixL
+  rw [h1]
+  exact h2 ty hty
+
+example : stripPrefixL "#Int+".toList = "+".toList := by decide
+example : stripPrefixL "#Float<=".toList = "<=".toList := by decide
+
+end Builtin
 
 end GluonModel.Props.C08
